@@ -117,14 +117,13 @@ def formatTimestamp (c : Chrono) (v fmt : Value) (tz : Option Value) : Res Value
             | some z => toStringOrPanic (c.format z t f)
   | _ => .err
 
-/-- `datetime_to_utc`: `Utc.timestamp_opt(secs, nanos).single().expect("invalid timestamp")`
-    — `None` (hence a panic) when the sub-second part is a leap-second representation that does
-    not sit on second 59 of a UTC minute (possible after a zone offset that is not a whole
-    number of minutes). -/
-def datetimeToUtc (p : Int × Nat) : Res Value :=
-  if p.2 ≥ 2000000000 ∨ (p.2 ≥ 1000000000 ∧ p.1 % 60 ≠ 59) then .panic
-  else if minSecs ≤ p.1 ∧ p.1 ≤ maxSecs then .ok (.ts (p.1 * 1000000000 + p.2))
-  else .panic
+/-- `datetime_to_utc`: `ts.with_timezone(&Utc)` (since /repo 83f4a4b) — the same instant, chrono's
+    leap-second representation included; it cannot fail. (It used to rebuild the instant with
+    `Utc.timestamp_opt(secs, nanos).single().expect("invalid timestamp")` and panicked when the
+    sub-second part was a leap-second representation not on second 59 of a UTC minute, possible
+    after a zone offset that is not a whole number of minutes.) The value is observed as a
+    nanosecond count, in which `(s, 10⁹ + f)` is the following second's `(s + 1, f)`. -/
+def datetimeToUtc (p : Int × Nat) : Res Value := .ok (.ts (p.1 * 1000000000 + p.2))
 
 /-- `parse_timestamp(value, format, timezone?)` with the configured zone `ctxZone`. -/
 def parseTimestamp (c : Chrono) (ctxZone : Zone) (v fmt : Value) (tz : Option Value) : Res Value :=
